@@ -145,7 +145,13 @@ def build(ch, allow_far=False):
     if nplanes == 8:
         top_first = ch.choose('top-first', [True, False])
         zlo, zhi = -1.0, 1.5
-        d.add_surface(snum, 'p', list(axis) + [zhi]); d.add_surface(snum + 1, 'p', list(axis) + [zlo])
+        # the two end planes are parallel to each other but need not be perpendicular to the prism axis: the
+        # elements tile space only if a1 and a2 lie in the end planes (a3 stays along the axis)
+        mnorm = axis
+        if ch.choose('end-planes', ['perpendicular', 'oblique']) == 'oblique':
+            mnorm = axis + 0.2 * (Q @ np.array([1.0, 0.0, 0.0])) - 0.1 * (Q @ np.array([0.0, 1.0, 0.0]))
+            base = [b - axis * float(mnorm @ b) for b in base]       # mnorm @ axis = 1
+        d.add_surface(snum, 'p', list(mnorm) + [zhi]); d.add_surface(snum + 1, 'p', list(mnorm) + [zlo])
         if top_first:
             lits += [-snum, snum + 1]; base.append(axis * (zhi - zlo))
         else:
